@@ -26,9 +26,18 @@ study.py, both read from the live modules) on generated texts.
 
 Streams: corpus | valid (inside hygiene H8) | prefix (parameter names that are
 prefixes of one another, the case repaired by 90c92b9) | exotic (custom labels
-that collide = K2, instance names equal to step names, references to
+that collide = K2, instance names equal to step names = K2b, references to
 non-ancestors, adjacent workspace references, dangling/late dependencies,
 empty value lists ...) | tiny (exhaustive small scope).
+
+Verdict per case (`classify`): the monitor `C08_ok` false on the implementation's
+graph inside H8 (`hygb`, the hypothesis of theorem C08_monitor_holds) is a
+VIOLATION; false outside H8 is a KNOWN-FINDING when the input has the signature
+`sig_label_join` (K2) / `sig_name_clash` (K2b) listed in KNOWN_FINDINGS.txt and
+the model reproduces the implementation's graph, and is only counted
+("out_of_domain") when the specification depends on something that is not a
+step (e.g. "_source_*"); any other disagreement of model and implementation is
+a correspondence mismatch.
 """
 import glob
 import json
@@ -504,7 +513,10 @@ def regex_texts():
     return notes
 
 
-def evaluate(ck, cases, tag="C08"):
+DOMAIN = {}      # tag -> indices of the cases outside hygiene H8 (None when not computed)
+
+
+def evaluate(ck, cases, tag="C08", want_domain=False):
     """Run the implementation on every case, evaluate model + monitor in Coq.
     Returns list of (case, obs, verdict) with verdict in ok/violation/known/mismatch."""
     work = os.path.join(common.WORK, "run-" + tag.lower())
@@ -521,14 +533,22 @@ def evaluate(ck, cases, tag="C08"):
     shutil.rmtree(work, ignore_errors=True)
     ty = "spec * result obs"
     # small shards: the quick tier's ~700 cases are evaluated by ~8 coqc processes in parallel
-    bad, errs = common.coq_failing(tag, HEADER, ty, "c08_case", lits, shard=100 if len(lits) <= 1600 else 400)
+    shard = 100 if len(lits) <= 1600 else 400
+    from concurrent.futures import ThreadPoolExecutor
+    with ThreadPoolExecutor(max_workers=2) as ex:
+        f_main = ex.submit(common.coq_failing, tag, HEADER, ty, "c08_case", lits, shard)
+        # hygiene depends on the specification only: the observable is left out of these literals
+        f_hyg = ex.submit(common.coq_failing, tag + "_dom", HEADER, ty, "c08_hyg",
+                          ["(%s, (E_ 0))" % g_spec(c) for c in cases], 200) if want_domain else None
+        bad, errs = f_main.result()
+        outside = set(f_hyg.result()[0]) if f_hyg else None
+    DOMAIN[tag] = outside
     verdicts = ["ok"] * len(cases)
     detail = {}
     if bad:
         sub = [lits[i] for i in bad]
         fns = [("agree", "c08_agree"), ("mon", "c08_monitor"), ("hyg", "c08_hyg"),
                ("k2", "c08_sig_k2"), ("k2b", "c08_sig_k2b")]
-        from concurrent.futures import ThreadPoolExecutor
         with ThreadPoolExecutor(max_workers=len(fns)) as ex:
             res = list(ex.map(lambda nf: common.coq_failing("%s_%s" % (tag, nf[0]), HEADER, ty, nf[1], sub), fns))
         (bad_agree, e1), (bad_mon, e2), (bad_hyg, e3), (has_k2, e4), (has_k2b, e5) = res
@@ -577,7 +597,10 @@ def model_text(case):
 
 
 def run(ck):
+    import time
+    t0 = time.time()
     ck.build_proofs()
+    t_build = time.time() - t0
     rng = random.Random(ck.seed)
     quick = ck.tier != "thorough"
     n_valid, n_prefix, n_exotic, n_scan = (260, 90, 120, 400) if quick else (5200, 1400, 2400, 6000)
@@ -587,13 +610,20 @@ def run(ck):
     cases += [gen_case(rng, "valid") for _ in range(n_valid)]
     cases += [gen_case(rng, "prefix") for _ in range(n_prefix)]
     cases += [gen_case(rng, "exotic") for _ in range(n_exotic)]
-    obs, verdicts, detail, errs = evaluate(ck, cases)
-    hist = {"streams": {}, "nodes": {}, "used_params_max": {}, "errors": {}, "rows": {}}
+    t0 = time.time()
+    obs, verdicts, detail, errs = evaluate(ck, cases, want_domain=True)
+    ck.notes["phase_s"] = {"build_proofs(incl. waiting for the shared coq lock)": round(t_build, 1),
+                           "stage_real+coq_cases": round(time.time() - t0, 1)}
+    outside = DOMAIN.get("C08") or set()
+    hist = {"streams": {}, "inside_H8_and_staged": {}, "nodes": {}, "used_params_max": {}, "errors": {}, "rows": {}}
     sig_hits = {}
+    n_mis = 0
     registered = {k.get("id"): k.get("witness", "") for k in ck.known}
     for i, (case, o) in enumerate(zip(cases, obs)):
         ck.count(case_key(case), nontrivial=nontrivial(case, o))
         hist["streams"][case["stream"]] = hist["streams"].get(case["stream"], 0) + 1
+        if o["ok"] and i not in outside:    # the theorems' hypotheses hold: the monitor must be true here
+            hist["inside_H8_and_staged"][case["stream"]] = hist["inside_H8_and_staged"].get(case["stream"], 0) + 1
         if o["ok"]:
             b = min(len(o["nodes"]) - 1, 12)
             hist["nodes"][b] = hist["nodes"].get(b, 0) + 1
@@ -620,8 +650,9 @@ def run(ck):
         elif v == "ood":
             sig_hits["out_of_domain"] = sig_hits.get("out_of_domain", 0) + 1
         elif v == "mismatch":
+            n_mis += 1                 # the model's observable is printed for the first few only
             ck.mismatch("model and Study.stage() disagree: %s" % json.dumps(detail.get(i)), clean(case),
-                        model_text(case))
+                        model_text(case) if n_mis <= 3 else "")
     for e in errs:
         ck.mismatch("coqc failed on cases file", None, e[1])
     # --- the scanners against Python's re ---------------------------------------
@@ -660,7 +691,8 @@ def run(ck):
                       "funnel dependencies mixed, 0-4 parameters x 0-5 rows with repeated int/float/str values, template and "
                       "per-row labels, value/label/name tokens and near-miss tokens in cmd/restart/description/resource keys, "
                       "workspace references) in streams valid/prefix/exotic; distinct = distinct (rlimit, params, steps); "
-                      "non-trivial = staged successfully with at least two instances")
+                      "non-trivial = staged successfully with at least two instances; inside_H8_and_staged counts the cases "
+                      "on which the theorems' hypotheses hold (there the monitor must be true on the implementation's graph)")
     ck.cov["traces_validated_against_impl"] = len(cases)
     ck.cov["input_distribution"] = hist
     return ck.finish(search=lambda: search(ck))
